@@ -899,6 +899,7 @@ func (f *framer) readTypeInfo() TypeInfo {
 	switch simple.typ {
 	case TypeTuple:
 		n := f.readShort()
+		f.checkCount(int(n), 2, "tuple element types")
 		tuple := TupleTypeInfo{
 			NativeType: simple,
 			Elems:      make([]TypeInfo, n),
@@ -918,6 +919,7 @@ func (f *framer) readTypeInfo() TypeInfo {
 		udt.Name = f.readString()
 
 		n := f.readShort()
+		f.checkCount(int(n), 4, "udt fields")
 		udt.Elements = make([]UDTField, n)
 		for i := 0; i < int(n); i++ {
 			field := &udt.Elements[i]
@@ -1845,8 +1847,17 @@ func (f *framer) readUUID() *UUID {
 	return &u
 }
 
+// checkCount panics (with a non-runtime error, which parseFrame returns to its caller)
+// if count elements of at least minSize bytes each cannot be in the rest of the body.
+func (f *framer) checkCount(count int, minSize int, what string) {
+	if count > len(f.buf)/minSize {
+		panic(fmt.Errorf("not enough bytes in buffer to read %d %s: got %d", count, what, len(f.buf)))
+	}
+}
+
 func (f *framer) readStringList() []string {
 	size := f.readShort()
+	f.checkCount(int(size), 2, "strings")
 
 	l := make([]string, size)
 	for i := 0; i < int(size); i++ {
@@ -1928,6 +1939,7 @@ func (f *framer) readConsistency() Consistency {
 
 func (f *framer) readBytesMap() map[string][]byte {
 	size := f.readShort()
+	f.checkCount(int(size), 6, "bytes map entries")
 	m := make(map[string][]byte, size)
 
 	for i := 0; i < int(size); i++ {
@@ -1941,6 +1953,7 @@ func (f *framer) readBytesMap() map[string][]byte {
 
 func (f *framer) readStringMultiMap() map[string][]string {
 	size := f.readShort()
+	f.checkCount(int(size), 4, "string multimap entries")
 	m := make(map[string][]string, size)
 
 	for i := 0; i < int(size); i++ {
